@@ -659,3 +659,85 @@ func ruleVALIDATEDOM(c *Ctx, r *Report) {
 	}
 	r.floor(rule, "success returns of Parse", n, 1)
 }
+
+// IMPL-AND-OPERAND (C07): the juxtaposition test must recognise every way an operand can end.
+func ruleIMPLANDOPERAND(c *Ctx, r *Report) {
+	const rule = "IMPL-AND-OPERAND"
+	r.doc(rule, "on every path of the parse loop that shifts a term without injecting the AND token, the previous stack element is proven not to end an operand: the stack is empty, or its top is a token whose type excludes the closing brackets ) ] } (an expression or a closing bracket on top means two operands are adjacent)")
+	pr := c.parserPreamble(r, rule)
+	if pr == nil || pr.TokToLit == nil {
+		return
+	}
+	paths, complete := c.enumPaths(pr.ParseLoop, 20000)
+	if !complete {
+		r.bad(rule, "paths", "-", "too many paths")
+		return
+	}
+	closing := []string{"lex.TRParen", "lex.TRSquare", "lex.TRCurly"}
+	n, bad := 0, 0
+	stackK := "$0." + pr.StackF.Name()
+	topK := stackK + "[(len(" + stackK + ") - 1)]"
+	for _, p := range paths {
+		shiftedTerm, injected := false, false
+		for _, in := range p.Instrs {
+			if call, ok := in.(*ssa.Call); ok && call.Call.StaticCallee() == pr.TokToLit {
+				shiftedTerm = true
+			}
+			if st, ok := in.(*ssa.Store); ok {
+				if fa, ok := st.Addr.(*ssa.FieldAddr); ok && fieldVar(fa.X.Type(), fa.Field) == pr.NTF {
+					if _, elem, ok := c.appendOne(c.resolve(st.Val, nil)); ok {
+						if c.localTokenTyp(c.resolve(elem, nil)) != "" {
+							injected = true
+						}
+					}
+				}
+			}
+		}
+		// only paths that complete the term push (reach the back edge of the main loop, whose
+		// header holds the Peek call)
+		if !shiftedTerm || injected || !p.Cut || p.CutTo == nil {
+			continue
+		}
+		mainHead := false
+		for _, in := range p.CutTo.Instrs {
+			if call, ok := in.(*ssa.Call); ok && call.Call.StaticCallee() == c.method(pkgLex, "Lexer", "Peek") {
+				mainHead = true
+			}
+		}
+		if !mainHead {
+			continue
+		}
+		n++
+		at := c.expand(p.Atoms, p.Env)
+		_, hi := lenRange(at, stackK)
+		if hi == 0 {
+			continue // empty stack: nothing before the term
+		}
+		isTok := false
+		for _, a := range at {
+			if a.Kind == "type" && a.Pos && a.Subj == topK && a.Val == "lex.Token" {
+				isTok = true
+			}
+		}
+		poss := possibleToks(c, at, topK+".(lex.Token).Typ")
+		var left []string
+		for _, cl := range closing {
+			if poss[cl] {
+				left = append(left, strings.TrimPrefix(cl, "lex."))
+			}
+		}
+		if !isTok {
+			bad++
+			r.bad(rule, "no-injection|top-not-token", c.pos(pr.ParseLoop.Pos()), "a term is pushed without an AND although the previous stack element may be an expression")
+		} else if len(left) > 0 {
+			bad++
+			r.badW(rule, "no-injection|after-closing-bracket", c.pos(pr.ParseLoop.Pos()),
+				fmt.Sprintf("a term that follows a closing bracket (%s) is pushed without the implicit AND: the group or range before it and the term are adjacent operands, but no operator is injected, so the query fails to parse although the same text with an explicit AND parses", strings.Join(left, ", ")),
+				"`(a OR b) c` and `a:[1 TO 5] b` are rejected; `(a OR b) AND c` parses")
+		}
+	}
+	if bad == 0 {
+		r.ok(rule, "no-injection-paths", c.pos(pr.ParseLoop.Pos()), fmt.Sprintf("%d term-shift paths without injection all have a non-operand on top", n))
+	}
+	r.floor(rule, "term-shift paths without injection", n, 1)
+}
